@@ -2,15 +2,55 @@
 from common import SAN_BASE
 
 PROP = dict(
-        technique="runtime monitoring: ASan/UBSan build + id round-trip oracle + request/transport model stepped after every reply-context operation",
-        level_text="(draft)",
-        level_note="(draft)",
-        legs=[dict(name="c12_id", src=["c12_id.c"], libs=["mptcore"], batch=2048,
-                   floors={"mpt_message_id2buf": 100000, "mpt_message_buf2id": 100000,
-                           "monitor:roundtrip-equal": 50000, "monitor:refusal-expected": 50000,
-                           "monitor:header-decoded": 50000, "monitor:header-above-64bit": 5000}),
-              dict(name="c12_reply", src=["c12_reply.c"], libs=["mptcore"], batch=512,
-                   floors={})],
-        rule="(draft)",
-        assumptions=SAN_BASE,
+        technique=("runtime monitoring: ASan/UBSan build; (a) id<->header round-trip oracle on exact-size buffers, "
+                   "(b) request/transport model stepped after every reply-context operation, the harness being the transport "
+                   "(send callback records id bytes + message and rejects PRNG-chosen calls)"),
+        level_text=("Monitored executions of the real code.  (a) mpt_message_id2buf/buf2id: 197 boundary ids (0, 1, 0x7f, 0x80, 2^k-1, 2^k, "
+                    "2^k+1 for k=0..63, 2^64-1) x widths 0..9 enumerated, plus 200k (quick) / 2M (thorough) random ids of uniformly chosen "
+                    "bit length, each through all ten widths, plus random headers decoded and compared with the library's own encoding. "
+                    "(b) 150k / 1.5M random histories on one mpt_reply_deferrable context (id capacity 0..9, 12, 40): arm, arm oversize, "
+                    "disarm, reply with/without message, defer, reply/release through deferred handles, release of the context reference, "
+                    "in any order, with an accepting, rejecting or flaky transport; every send that reaches the transport is compared with "
+                    "the request the model says is being answered.  (c) 30k / 300k histories end to end: a peer writes COBS framed requests "
+                    "with ids into a socketpair, mpt_stream_input dispatches them to a handler that replies 0, 1 or 2 times, the peer decodes "
+                    "every frame coming back (reply bit, id of an outstanding request, at most one per request, exactly one at the end).  "
+                    "Exploration, not proof."),
+        level_note=("trusts the request model in harness/c12_reply.c and the fits-predicate id < 2^(8w-1) in harness/c12_id.c, gcc ASan/UBSan; "
+                    "the context object is located with __asan_locate_address, its layout is not assumed"),
+        legs=[dict(name="c12_id", src=["c12_id.c"], libs=["mptcore"], batch=4096,
+                   floors={"mpt_message_id2buf": 500000, "mpt_message_buf2id": 500000,
+                           "monitor:roundtrip-equal": 300000, "monitor:refusal-expected": 300000,
+                           "monitor:header-decoded": 300000, "monitor:header-above-64bit": 20000,
+                           "boundary:accepted": 1000, "boundary:refused": 800}),
+              dict(name="c12_reply", src=["c12_reply.c"], libs=["mptcore"], batch=1024,
+                   floors={"mpt_reply_set": 100000, "reply_context.reply": 100000, "reply_context.defer": 30000,
+                           "defer:accepted": 20000,
+                           "reply_context_detached.reply": 10000, "reply_context_detached.reply(NULL)": 10000,
+                           "metatype.unref": 100000,
+                           "transport:accepted": 50000, "transport:rejected": 50000,
+                           "monitor:send-id-compared": 100000, "monitor:send-message-compared": 100000,
+                           "monitor:arm-context-compared": 100000, "monitor:further-reply-refused": 20000,
+                           "monitor:rejected-still-armed": 10000, "monitor:release-default-reply": 10000,
+                           "monitor:detached-no-send": 5000, "deferred:kept-after-reject": 2000,
+                           "history:with-defer": 20000, "history:with-rejected-send": 20000}),
+              dict(name="c12_stream", src=["c12_stream.c"], libs=["mptio", "mptcore"], batch=512,
+                   floors={"mpt_stream_input": 20000, "input.dispatch": 100000, "reply_context.reply": 100000,
+                           "stream:request-dispatched": 100000, "peer:frames-received": 100000, "peer:default-replies": 30000,
+                           "monitor:reply-id-compared": 100000, "monitor:reply-body-compared": 50000,
+                           "monitor:further-reply-refused": 30000, "request:without-id": 10000})],
+        rule=("c12_id: case = one boundary (id, width) pair or one random id run through widths 0..9 together with nine random headers; "
+              "non-trivial = non-zero id accepted by at least one width > 0 (or, for boundary pairs, a refusal within one bit of the width's "
+              "limit).  c12_reply: case = one history of 4..24 (thorough 40) operations on one reply context followed by release of everything "
+              "still held in PRNG order; non-trivial = at least two requests armed and at least two sends reached the transport; "
+              "c12_stream: case = 1..4 bursts of 1..4 framed requests on one stream input; non-trivial = at least two requests and one reply; "
+              "distinct = 64-bit hash of id / operation list with arguments, message bytes and transport verdicts"),
+        exhaustive_note="boundary ids {0,1,0x7f,0x80,2^k-1,2^k,2^k+1 (k=0..63),2^64-1} x widths 0..9",
+        assumptions=SAN_BASE + [
+            "an id fits width w iff id < 2^(8w-1) (top bit of the first byte is the reply marker); every 64-bit id fits 9 bytes; width 0 holds id 0 only",
+            "the harness owns exactly one metatype reference of the context; releasing it detaches the transport (send must not be called afterwards)",
+            "a deferred handle is consumed by reply(msg) >= 0 and by reply(NULL) whatever it returns, and stays valid after reply(msg) < 0 (reply_deferrable.c)",
+            "stream leg: requests the stream layer never hands to the handler are counted, not judged (bounded progress of the stream is property C02); "
+            "the input is driven with next(POLLIN|POLLOUT) because next(POLLOUT) alone never flushes",
+            "a request armed on the context when its reference is released with the transport attached must get one default (NULL message) send, also while deferred handles are outstanding",
+        ],
     )
